@@ -15,10 +15,10 @@
 EXTENDS Naturals, Sequences
 
 CoreIds == {"w", "two", "empty", "bsn", "nl", "numstr", "int", "float", "posexp", "t", "null", "ref", "uni", "flow", "chain", "syn", "tens", "qop", "tens3", "slashes", "nlsp", "ann", "ctor1", "holo", "l0", "l2", "l3", "lnest", "lmatrix", "lmap", "lfalsy", "lq", "lslash", "lexpr", "z1", "zpy", "ztrail", "zempty"}
-FullIds == {"three", "quote", "bslash", "tab", "truestr", "nullstr", "vsstr", "truedot", "neg", "zero", "one", "fzero", "fone", "big", "exp", "negexp", "bigexp", "intexp", "f", "ver", "verpre", "var", "vartyped", "ref2b", "path", "hyph", "colon", "pct", "emoji", "alt", "con", "cat", "at", "mixed", "syn3", "slash2", "relpath", "abspath", "docpath", "sjl", "sje", "sjo", "nllead", "ctor2", "ctor0", "holoenum", "l1", "lnullmap", "lemptymap", "ltq", "lann", "lpattern", "z4", "ztab", "zblank3", "l01", "zblank"}
+FullIds == {"three", "quote", "bslash", "tab", "truestr", "nullstr", "vsstr", "truedot", "neg", "zero", "one", "fzero", "fone", "big", "exp", "negexp", "bigexp", "intexp", "finf", "fninf", "f", "ver", "verpre", "var", "vartyped", "ref2b", "path", "hyph", "colon", "pct", "emoji", "alt", "con", "cat", "at", "mixed", "syn3", "slash2", "relpath", "abspath", "docpath", "sjl", "sje", "sjo", "nllead", "ctor2", "ctor0", "holoenum", "l1", "lnullmap", "lemptymap", "ltq", "lann", "lpattern", "z4", "ztab", "zblank3", "linf", "l01", "zblank"}
 ValIds == CoreIds \cup FullIds
 ZoneIds == {"z1", "zpy", "z4", "ztrail", "zempty", "ztab", "zblank3", "zblank"}
-ListIds == {"holo", "holoenum", "l0", "l1", "l2", "l3", "lnest", "lmatrix", "lmap", "lfalsy", "lnullmap", "lemptymap", "lq", "ltq", "lslash", "lexpr", "lann", "lpattern", "l01"}
+ListIds == {"holo", "holoenum", "l0", "l1", "l2", "l3", "lnest", "lmatrix", "lmap", "lfalsy", "lnullmap", "lemptymap", "lq", "ltq", "lslash", "lexpr", "lann", "lpattern", "linf", "l01"}
 
 Abs(v) ==
   CASE v = "w" -> [t |-> "str", s |-> "hello", xs |-> <<>>]
@@ -48,6 +48,8 @@ Abs(v) ==
     [] v = "posexp" -> [t |-> "float", s |-> "2.5e-07", xs |-> <<>>]
     [] v = "bigexp" -> [t |-> "float", s |-> "1.5e+16", xs |-> <<>>]
     [] v = "intexp" -> [t |-> "float", s |-> "1e+22", xs |-> <<>>]
+    [] v = "finf" -> [t |-> "float", s |-> "inf", xs |-> <<>>]
+    [] v = "fninf" -> [t |-> "float", s |-> "-inf", xs |-> <<>>]
     [] v = "t" -> [t |-> "bool", s |-> "true", xs |-> <<>>]
     [] v = "f" -> [t |-> "bool", s |-> "false", xs |-> <<>>]
     [] v = "null" -> [t |-> "null", s |-> "", xs |-> <<>>]
@@ -114,6 +116,7 @@ Abs(v) ==
     [] v = "zempty" -> [t |-> "zone", s |-> "3:", xs |-> <<>>]
     [] v = "ztab" -> [t |-> "zone", s |-> "3:txt", xs |-> <<[t |-> "ln", s |-> "{U0009}x", xs |-> <<>>], [t |-> "ln", s |-> "cafe{U0301}", xs |-> <<>>], [t |-> "ln", s |-> "q\"\\n", xs |-> <<>>]>>]
     [] v = "zblank3" -> [t |-> "zone", s |-> "3:", xs |-> <<[t |-> "ln", s |-> "a  ", xs |-> <<>>], [t |-> "ln", s |-> "", xs |-> <<>>], [t |-> "ln", s |-> "", xs |-> <<>>], [t |-> "ln", s |-> "", xs |-> <<>>], [t |-> "ln", s |-> "{U00A7}1::X", xs |-> <<>>], [t |-> "ln", s |-> "{U00A7}2::Y", xs |-> <<>>]>>]
+    [] v = "linf" -> [t |-> "list", s |-> "", xs |-> <<[t |-> "float", s |-> "inf", xs |-> <<>>], [t |-> "int", s |-> "1", xs |-> <<>>], [t |-> "float", s |-> "-inf", xs |-> <<>>]>>]
     [] v = "l01" -> [t |-> "list", s |-> "", xs |-> <<[t |-> "int", s |-> "0", xs |-> <<>>], [t |-> "int", s |-> "1", xs |-> <<>>], [t |-> "bool", s |-> "true", xs |-> <<>>], [t |-> "null", s |-> "", xs |-> <<>>]>>]
     [] v = "zblank" -> [t |-> "zone", s |-> "3:", xs |-> <<[t |-> "ln", s |-> "x", xs |-> <<>>], [t |-> "ln", s |-> "", xs |-> <<>>], [t |-> "ln", s |-> "---", xs |-> <<>>]>>]
 
@@ -155,6 +158,11 @@ Spell(v) ==
         <<[k |-> "first", c |-> <<"15000000000000000.0">>]>>>>
     [] v = "intexp" -> <<<<[k |-> "first", c |-> <<"1e+22">>]>>,
         <<[k |-> "first", c |-> <<"1e22">>]>>>>
+    [] v = "finf" -> <<<<[k |-> "first", c |-> <<"1e999">>]>>,
+        <<[k |-> "first", c |-> <<"1e400">>]>>,
+        <<[k |-> "first", c |-> <<"2.5E+308">>]>>>>
+    [] v = "fninf" -> <<<<[k |-> "first", c |-> <<"-1e999">>]>>,
+        <<[k |-> "first", c |-> <<"-1e400">>]>>>>
     [] v = "t" -> <<<<[k |-> "first", c |-> <<"true">>]>>>>
     [] v = "f" -> <<<<[k |-> "first", c |-> <<"false">>]>>>>
     [] v = "null" -> <<<<[k |-> "first", c |-> <<"null">>]>>>>
@@ -281,6 +289,8 @@ Spell(v) ==
     [] v = "zempty" -> <<<<[k |-> "first", c |-> <<>>], [k |-> "rel", c |-> <<"```">>], [k |-> "rel", c |-> <<"```">>]>>>>
     [] v = "ztab" -> <<<<[k |-> "first", c |-> <<>>], [k |-> "rel", c |-> <<"```", "txt">>], [k |-> "raw", c |-> <<"U0009", "x">>], [k |-> "raw", c |-> <<"cafe", "U0301">>], [k |-> "raw", c |-> <<"q\"\\n">>], [k |-> "rel", c |-> <<"```">>]>>>>
     [] v = "zblank3" -> <<<<[k |-> "first", c |-> <<>>], [k |-> "rel", c |-> <<"```">>], [k |-> "raw", c |-> <<"a  ">>], [k |-> "raw", c |-> <<>>], [k |-> "raw", c |-> <<>>], [k |-> "raw", c |-> <<>>], [k |-> "raw", c |-> <<"U00A7", "1::X">>], [k |-> "raw", c |-> <<"U00A7", "2::Y">>], [k |-> "rel", c |-> <<"```">>]>>>>
+    [] v = "linf" -> <<<<[k |-> "first", c |-> <<"[", "1e999", ",", "1", ",", "-1e999", "]">>]>>,
+        <<[k |-> "first", c |-> <<"[", "1e400", ",", "1", ",", "-1e400", "]">>]>>>>
     [] v = "l01" -> <<<<[k |-> "first", c |-> <<"[", "0", ",", "1", ",", "true", ",", "null", "]">>]>>>>
     [] v = "zblank" -> <<<<[k |-> "first", c |-> <<>>], [k |-> "rel", c |-> <<"```">>], [k |-> "raw", c |-> <<"x">>], [k |-> "raw", c |-> <<>>], [k |-> "raw", c |-> <<"---">>], [k |-> "rel", c |-> <<"```">>]>>>>
 
